@@ -22,6 +22,7 @@ type recorder struct {
 	log   []Rec
 	t0    time.Time
 	stick *int64
+	trace func(any)
 }
 
 func (r *recorder) add(x Rec) int64 {
@@ -31,6 +32,9 @@ func (r *recorder) add(x Rec) int64 {
 	x.STick = atomic.LoadInt64(r.stick)
 	r.log = append(r.log, x)
 	t := x.T
+	if r.trace != nil {
+		r.trace(x)
+	}
 	r.mu.Unlock()
 	return t
 }
@@ -197,7 +201,8 @@ func (o *monOutput) send(b *pipeline.Batch) error {
 	var ids, pids []string
 	for _, e := range pipeline.VerifBatchEvents(b) {
 		if e.IsChildParentKind() {
-			pids = append(pids, "P:"+eventID(e))
+			// outputs never touch a split parent's JSON: identify it by offset
+			pids = append(pids, "P:"+o.eng.idByOffset(uint64(e.SourceID), e.Offset))
 		}
 	}
 	b.ForEach(func(e *pipeline.Event) { ids = append(ids, eventID(e)) })
@@ -245,11 +250,11 @@ func (o *monOutput) Start(_ pipeline.AnyConfig, params *pipeline.OutputPluginPar
 	onError := func(err error, events []*pipeline.Event) {
 		var ids []string
 		for _, e := range events {
-			p := ""
 			if e.IsChildParentKind() {
-				p = "P:"
+				ids = append(ids, "P:"+o.eng.idByOffset(uint64(e.SourceID), e.Offset))
+				continue
 			}
-			ids = append(ids, p+eventID(e))
+			ids = append(ids, eventID(e))
 		}
 		o.eng.rec.add(Rec{K: "giveup", Out: o.name, IDs: ids, OK: o.router.IsDeadQueueAvailable()})
 		for i := range events {
